@@ -215,8 +215,8 @@ def rand_arr(rng, shape, dtype):
 
 def make_obj(rng, cls, n, dtype, noise):
     shape = (2, n) if cls == "opt2" else (n,)
-    s = rand_arr(rng, shape, dtype)
-    nz = rand_arr(rng, shape, dtype) if noise else None
+    s = core.degenerate_rows(rng, rand_arr(rng, shape, dtype), every=8, rows_only=True)
+    nz = core.degenerate_rows(rng, rand_arr(rng, shape, dtype), every=5, rows_only=True) if noise else None      # e.g. noise in one polarisation only
     obj = T.electrical_signal(s, nz) if cls == "el" else T.optical_signal(s, nz)
     return obj, Model("el" if cls == "el" else "opt", s, nz)
 
